@@ -542,6 +542,20 @@ def shard_renewal(arg) -> E.Tally:
                                     f"but the gateway's saved state (get_state) does not hold the second message {L[second][0].strip()!r}",
                                     {"renewal": True},
                                 )
+                            # ... and the renewal ages out in its turn: 2L + 60 s after it the attribute is unknown from the second read on
+                            w.set_time(w.now() + life * 2 + td(seconds=60))
+                            read(gwy, ent, attr)
+                            w.loop.settle()
+                            late = [read(gwy, ent, attr)]
+                            w.loop.settle()
+                            late.append(read(gwy, ent, attr))
+                            if any(r is not None for r in late):
+                                t.bad(
+                                    f"C14:renewed-value-never-expires:{attr}",
+                                    f"{name} at t0, {second} at t0+{gap}L (L={life}), app callback reads={cb_reads}, read just before={read_before}: 2L+60 s after the second message "
+                                    f"the second and third reads of {ent}.{attr} give {late}",
+                                    {"renewal": True},
+                                )
                         finally:
                             w.close()
     t.by["renewal"] = t.n
